@@ -40,6 +40,7 @@ type Event struct {
 	OptH   []metadata.MD     `json:"opt_h,omitempty"` // grpc.Header targets at return
 	OptT   []metadata.MD     `json:"opt_t,omitempty"` // grpc.Trailer targets at return
 	obj    proto.Message     // the receiver's live object (for the later re-check)
+	sobj   proto.Message     // the sender's live object (for the later re-check)
 	RawBody []byte           `json:"-"` // raw peer: reply body
 }
 
@@ -158,6 +159,8 @@ func (c *simCreds) RequireTransportSecurity() bool { return c.spec.Secure }
 var _ credentials.PerRPCCredentials = (*simCreds)(nil)
 
 type ctxKey struct{ n int }
+type namedIntKey int
+type namedStrKey string
 type ctxVal struct {
 	key any
 	val any
@@ -174,13 +177,35 @@ func (s *Sim) startRPC(rs *rpcState) {
 	strKey := "sim-string-key"
 	for i := 0; i < r.CtxVals; i++ {
 		var k any
-		switch i % 3 {
+		// key kinds rotate with the RPC id so that every kind is used as the
+		// first (and often only) key of some call
+		switch (i + r.ID*5 + int(uint64(s.prog.Seed)%13)) % 13 {
 		case 0:
 			k = ctxKey{i}
 		case 1:
 			k = &ctxKey{i}
 		case 2:
 			k = strKey + fmt.Sprint(i)
+		case 3:
+			k = new(int)
+		case 4:
+			k = new(string)
+		case 5:
+			k = i + 1000
+		case 6:
+			k = namedIntKey(i)
+		case 7:
+			k = namedStrKey("k" + fmt.Sprint(i))
+		case 8:
+			k = [2]int{i, 7}
+		case 9:
+			k = new(struct{})
+		case 10:
+			k = new(bool)
+		case 11:
+			k = float64(i) + 0.5
+		case 12:
+			k = make(chan int)
 		}
 		v := fmt.Sprintf("caller-value-%d-%d", r.ID, i)
 		base = context.WithValue(base, k, v)
@@ -375,6 +400,7 @@ func (s *Sim) clientOp(rs *rpcState, g int, st grpc.ClientStream, op Op) {
 		s.mu.Unlock()
 		ev := s.begin(r.ID, 'c', g, "send")
 		ev.Msg = op.Msg
+		ev.sobj = obj
 		err := guard(ev, func() error { return st.SendMsg(obj) })
 		s.end(ev, err)
 	case "recv":
@@ -540,6 +566,25 @@ func (s *Sim) recheck(rs *rpcState, side byte, g int) {
 		if d := digestMsg(ev.obj); d != ev.Got {
 			s.instant(rs.r.ID, side, g, "recheck", func(e *Event) {
 				e.Note = fmt.Sprintf("MODIFIED: message received at seq %d was %s, is now %s", ev.Seq, ev.Got, d)
+			})
+		}
+	}
+	// and everything this side handed to the library is still what it was,
+	// unless this side mutated it itself (the peer's writes to its copy must
+	// never come back)
+	s.mu.Lock()
+	var sent []*Event
+	for _, ev := range s.hist {
+		if ev.RPC == rs.r.ID && ev.Side == side && ev.sobj != nil && ev.Msg != nil && ev.Msg.Kind != 4 && !rs.mutatedObj[ev.sobj] {
+			sent = append(sent, ev)
+		}
+	}
+	s.mu.Unlock()
+	for _, ev := range sent {
+		want := digestMsg(ev.Msg.Build())
+		if d := digestMsg(ev.sobj); d != want {
+			s.instant(rs.r.ID, side, g, "recheck", func(e *Event) {
+				e.Note = fmt.Sprintf("MODIFIED: message sent at seq %d was %s, is now %s although this side never touched it", ev.Seq, want, d)
 			})
 		}
 	}
@@ -830,6 +875,7 @@ func (s *Sim) streamHandler(rs *rpcState, stream grpc.ServerStream) (err error) 
 			s.mu.Unlock()
 			ev := s.begin(r.ID, 'h', 0, "send")
 			ev.Msg = op.Msg
+			ev.sobj = obj
 			opErr = guard(ev, func() error { return stream.SendMsg(obj) })
 			s.end(ev, opErr)
 		case "sethdr":
